@@ -392,6 +392,9 @@ func (ds *Dataset) StoreEntitiesWithTransaction(
 				if IsEntityEqual(prevLocalJSON, jsonData, prevLocalEntity, e) {
 					isDifferentLocally = false
 				}
+				// an earlier version of this entity in the same batch supersedes the stored
+				// version as the one this write would replace
+				isDifferent = isDifferentLocally
 
 			} else {
 				isDifferentLocally = false
